@@ -22,7 +22,7 @@ NPTS = 25
 
 
 def floors(tier):
-    return {"points_checked": 400, "points_generic": 200, "points_passed_as_non_contiguous_view": 300, "__nontrivial__": 40}
+    return {"points_checked": 400, "points_generic": 200, "points_passed_as_non_contiguous_view": 300, "points_checked_after_solver_runs": 250, "solver_runs_on_exported_functions": 20, "__nontrivial__": 40}
 
 
 def cases(tier, seed):
@@ -34,6 +34,62 @@ def cases(tier, seed):
             for r in range(reps):
                 for kind in ("uniform", "lattice", "near_integer") + (("near_singular",) if name == "griewank" else ()):
                     yield {"name": name, "n": n, "seed": subseed("C19", seed, name, n, r, kind) % (2**31), "kind": kind}
+    for name in NAMES:
+        for j in range(6 if tier == "quick" else 200):
+            n = 2 + j % 4
+            yield {"name": name, "n": n, "seed": subseed("C19s", seed, name, j) % (2**31), "kind": "after_solver",
+                   "maxls": [1, 2, 2, 3, 20, 2][j % 6], "maxcor": 1 + j % 5}
+
+
+def run_after_solver(spec, out):
+    """The exported function and gradient used as objective of the package's own solver (starved line searches, boxes), every
+    evaluated point recorded; afterwards, in the same process, the exported gradient is queried at every recorded point."""
+    import lbfgsb
+
+    name, n = spec["name"], spec["n"]
+    f = getattr(lbfgsb, name)
+    g = getattr(lbfgsb, name + "_grad")
+    rng = np.random.default_rng(spec["seed"])
+    pts = []
+
+    def fun(x):
+        pts.append(np.array(x, copy=True))
+        return f(x)
+
+    lb = np.full(n, -5.0) if rng.random() < 0.7 else np.full(n, -np.inf)
+    ub = np.full(n, 5.0) if rng.random() < 0.7 else np.full(n, np.inf)
+    x0 = rng.uniform(-4.5, 4.5, n)
+    old = np.seterr(all="ignore")
+    try:
+        try:
+            res = lbfgsb.minimize_lbfgsb(x0=x0, fun=fun, jac=g, bounds=np.column_stack([lb, ub]), maxls=int(spec["maxls"]), maxiter=40,
+                                         maxcor=int(spec["maxcor"]), ftol=0.0, gtol=1e-9)
+            out.count("solver_runs_on_exported_functions")
+            if "LNSRCH" in str(res.message):
+                out.count("solver_runs_ending_in_failed_line_search")
+        except Exception as e:
+            out.count("solver_runs_raised")
+            out.count("raised:" + type(e).__name__)
+        generic = 0
+        for x in pts:
+            if name == "ackley" and np.linalg.norm(x) < 0.5:
+                continue
+            if name == "griewank" and np.any(np.abs(np.cos(x / np.sqrt(np.arange(1, n + 1)))) < 1e-6):
+                continue
+            check_point(f, g, x, out, name)
+            out.count("points_checked")
+            out.count("points_checked_after_solver_runs")
+            if not np.any(x == np.round(x)):
+                generic += 1
+                out.count("points_generic")
+            if out.violations:
+                break
+    finally:
+        np.seterr(**old)
+    out.nontrivial = generic > 0
+    out.key = f"after_solver/{name}/{n}/{spec['seed']}"
+    out.sample = dict(spec=spec, points=len(pts))
+    return out
 
 
 def check_point(f, g, x, out: Outcome, name, given=None):
@@ -66,6 +122,8 @@ def run(spec):
     import lbfgsb
 
     out = Outcome()
+    if spec["kind"] == "after_solver":
+        return run_after_solver(spec, out)
     name, n = spec["name"], spec["n"]
     f = getattr(lbfgsb, name)
     g = getattr(lbfgsb, name + "_grad")
